@@ -299,6 +299,10 @@ def run(ctx, rep, tier):
         clocks(rep, F, E, G, tag)
         input_normalisation(rep, F, tag)
         fresh_start(rep, F, E, G, tag)
+    # "equilibration toggled / objective scaled by a constant give consistent answers" presupposes that the internal
+    # scaling is an exact change of variables that every reader undoes (C10.R1, C08.R3)
+    from . import units_rules
+    units_rules.premises(ctx, rep, 'C05.R7')
     if tier == 'thorough':
         from . import witness
         witness.run(rep, 'C05.R4', ['send', 'stream_sync'])
